@@ -173,8 +173,39 @@ Definition e_sched (v : val) : val :=
   | _ => verr
   end.
 
+(* session command: [0 v] EHLO | [1 v] HELO | [2] RSET | [3 v] MAIL | [4 a v] RCPT | [5 v hv q] DATA | [6] NOOP *)
+Definition d_scmd (v : val) : option scmd :=
+  match v with
+  | VL [VN 0; VN c] => Some (SEhlo c)
+  | VL [VN 1; VN c] => Some (SHelo c)
+  | VL [VN 2] => Some SRset
+  | VL [VN 3; VN c] => Some (SMail c)
+  | VL [VN 4; VN a; VN c] => Some (SRcpt a c)
+  | VL [VN 5; VN c; VN h; VN q] => Some (SData c h q)
+  | VL [VN 6] => Some SNoop
+  | _ => None
+  end.
+
+Definition e_sout (o : sout) : val :=
+  match o with
+  | OReply c => VL [VN 0; VN c]
+  | OHandoff l => VL [VN 1; VL (map VN l)]
+  end.
+
+(* [commands] -> [[outputs of command 1]; ...]  (session starts after the banner) *)
+Definition e_session (v : val) : val :=
+  match v with
+  | VL cl =>
+      match d_list d_scmd cl with
+      | Some cs => VL (map (fun p => VL (map e_sout (snd p))) (srun s_init cs))
+      | None => verr
+      end
+  | _ => verr
+  end.
+
 Definition e_http (v : val) : val := VN (http_status_of (get_b v)).
 
 Definition entries : list entry :=
   [("c02_queue"%string, e_queue); ("c02_results"%string, e_results);
-   ("c02_proxy"%string, e_proxy); ("c02_http"%string, e_http); ("c02_sched"%string, e_sched)].
+   ("c02_proxy"%string, e_proxy); ("c02_http"%string, e_http); ("c02_sched"%string, e_sched);
+   ("c02_session"%string, e_session)].
